@@ -10,6 +10,10 @@
 //	DBRes    auth.DatabaseResource: injective, one path element under the database root.
 //	HTTP     the real httpd.Handler with authentication enabled and a fake auth.Interface;
 //	         safety direction only.
+//	Session  ONE httpd.Handler serving a sequence of requests while the auth service's state
+//	         (privilege tables, admin flag, passwords, users, subscription tokens) is edited
+//	         between them; the HTTP unit's oracle per request with the state in force at that
+//	         request (session_test.go).
 //
 // This file: the reference decision (shared by all units) and the Decide/DecideR units.
 // The reference is written from the property text: normalise the resource with a segment
